@@ -456,7 +456,7 @@ def t2_paths(ctx, s, cps, fx, deep=True):
         else:
             exp = mm["os"]
         cpb = bytes.fromhex(c["cp"])
-        if (bk is None and b"\x00" in cpb and b"~" in cpb and out.startswith(("OSError", "EXC:ValueError"))
+        if (bk is None and b"\x00" in cpb and out.startswith(("OSError", "EXC:ValueError"))
                 and exp.startswith("E:")):
             # pwd.getpwnam inside the real os.path.expanduser refuses a NUL in the user name: a rejection
             # before anything reaches the local transport; the model rejects the same path later (NUL / non-ASCII)
@@ -846,7 +846,7 @@ def run(ctx, n_exh=None, n_deep=None, n_verbs=None):
     deep_set = set(gen_exhaustive(n_deep))
     verbs_set = gen_exhaustive(n_verbs)
     rnd = gen_random(rng, ctx.pick(600, 12000), 3, 8)
-    rnd_verbs = rnd[: ctx.pick(12, 400)]
+    rnd_verbs = rnd[: ctx.pick(12, 200)]
     bad = gen_malformed(rng, ctx.pick(150, 1000))
     ctx.extra["domain"] = dict(tokens=TOKENS, exhaustive_translate=n_exh, exhaustive_stack=n_deep,
                                exhaustive_verbs=n_verbs, random=len(rnd), malformed=len(bad), configs=CONFIGS)
